@@ -1,7 +1,7 @@
 (* Extraction of the C04 model: ExtrOcamlBasic only, no Extract Constant.  The carrier is abstract
    (Section variables of C04Model.v became ordinary function arguments); the driver passes OCaml floats. *)
 Require Import ExtrOcamlBasic.
-From SharkV Require Import C04Model C04Conv C04Pool C04Het C04Misc.
+From SharkV Require Import C04Model C04Conv C04Pool C04Het C04Misc C04Kexp.
 Extraction "c04_model.ml" ew_act id_act normalizer_act softmax_act
   lin_eval lin_eval_batch lin_params lin_nparams lin_set lin_wpd lin_wid lin_wd
   net_eval net_eval_batch net_params net_nparams net_set net_back
@@ -12,4 +12,5 @@ Extraction "c04_model.ml" ew_act id_act normalizer_act softmax_act
   hnet_np hnet_params hnet_set hnet_features hnet_eval hnet_eval1 hnet_wid hnet_wd hnet_wpd
   neu_eval neu_eval1 neu_wid lin_kind neu_kind conv_kind pool_kind resize_kind norm_kind rbf_kind
   rbf_set_gamma rbf_nparams rbf_params rbf_set rbf_eval rbf_eval_batch rbf_wpd
-  cmac_nparams cmac_eval cmac_eval_batch cmac_wpd ens_eval_batch ens_eval.
+  cmac_nparams cmac_eval cmac_eval_batch cmac_wpd ens_eval_batch ens_eval
+  ke_nparams ke_params ke_set ke_eval_batch ke_eval kx_lin kx_poly.
